@@ -521,6 +521,27 @@ def rule_h(model, rep):
         rep.undecided(R, "<instance-count>", f"only {n} guarded call sites found, expected at least 3")
 
 
+def rule_i(model, rep):
+    """hashing succeeds for every admissible password: the bcrypt library (>= 5.0) raises for secrets longer than 72 bytes, which bcrypt
+    ignores anyway, so every call into it must cut the secret first (passlib's own backend does, see C03.e)"""
+    R = "C01.i-bcrypt-72"
+    LBU = "libpass.hashers.bcrypt"
+    n = 0
+    for q in ("BcryptHasher.hash", "BcryptHasher.verify"):
+        fn = model.func(LBU, q)
+        for c in walk_no_nested(fn):
+            if isinstance(c, ast.Call) and ast.unparse(c.func) in ("bcrypt.hashpw", "bcrypt.checkpw"):
+                arg = c.args[0] if c.args else next((k.value for k in c.keywords if k.arg == "password"), None)
+                n += 1
+                t = ast.unparse(arg) if arg is not None else "<none>"
+                ok = isinstance(arg, ast.Subscript) and isinstance(arg.slice, ast.Slice) and arg.slice.lower is None and isinstance(arg.slice.upper, ast.Constant) and arg.slice.upper.value == 72
+                rep.check(ok, R, site(LBU, q), f"{ast.unparse(c.func)}({t}, ...)", "the secret handed to the bcrypt library is cut to the 72 bytes bcrypt uses",
+                          witness="BcryptHasher(rounds=4).hash('a' * 73) raises ValueError (bcrypt 5.0), and verify(h, 'b' * 200) raises instead of returning False; "
+                                  "the repository's own tests/libpass test_password_truncation expects silent truncation")
+    if n < 2:
+        rep.undecided(R, "<instance-count>", f"only {n} calls into the bcrypt library found in BcryptHasher")
+
+
 def run(model, rep):
     rep.explanation = __doc__
     rep.assumptions = ["`secret` is str|bytes at _calc_checksum entry (validate_secret ran; checked by C05.b)",
@@ -534,5 +555,6 @@ def run(model, rep):
     rule_d(model, rep)
     rule_e(model, rep)
     rule_h(model, rep)
+    rule_i(model, rep)
     rule_f(model, rep)
     rule_g(model, rep)
